@@ -160,6 +160,11 @@ def match(found, pat, binds=None):
         binds = {}
     if pat == ANY:
         return True
+    if pat[0] == 'not_err_variants':
+        # anything but Err(one of the named variants)
+        if found[0] == 'adt' and found[2] == 'Err' and found[4] and found[4][0][0] == 'adt':
+            return found[4][0][2] not in pat[1]
+        return found[0] == 'adt'
     if pat[0] == 'bind':
         if pat[1] in binds:
             return equal(binds[pat[1]], found)
